@@ -49,24 +49,29 @@ def noFragment (legacy : List (Sym × Sym)) (s : List Nat) : Bool :=
 def UnitRow.notRewritten (legacy : List (Sym × Sym)) (r : UnitRow) : Bool :=
   fixLegacy legacy r.sym == r.sym
 
-/-- the row is the one the global symbol index answers with (symbols are unique) -/
-def UnitRow.isFirst (db : Db) (r : UnitRow) : Bool := db.unitBySym r.sym == some r
-
 /-- a derived spelling: rewritten to its current symbol, really a different string, a fixed point
 after one rewrite -/
 def derivedPairOk (legacy : List (Sym × Sym)) (p : Sym × Sym) : Bool :=
   fixLegacy legacy p.1 == p.2 && p.1 != p.2
   && fixLegacy legacy (fixLegacy legacy p.1) == fixLegacy legacy p.1
 
-/-- every legacy spelling of the row is fine, and a row that has legacy spellings does not belong to
-the `<unknown>` placeholder's quantity type -/
-def UnitRow.derivedOk (legacy : List (Sym × Sym)) (r : UnitRow) : Bool :=
-  (deriveFor legacy r.sym).all (derivedPairOk legacy)
-  && ((deriveFor legacy r.sym).isEmpty || r.qtype != unknownQType)
+/-- the row is the only one with its symbol (`AddUnit` refuses a symbol twice) -/
+def UnitRow.onlyOne (db : Db) (r : UnitRow) : Bool := db.units.filter (·.sym == r.sym) == [r]
 
-/-- a category that is named like a quantity type belongs to that type (so that `GetInfo`'s
-"category or quantity type" argument means one thing) -/
-def CatRow.typeNameStable (db : Db) (c : CatRow) : Bool := !db.hasType c.name || c.qtype == c.name
+/-- if the row's quantity type is also the name of a category, that category belongs to the type
+(so that `GetInfo`'s "category or quantity type" argument means one thing) -/
+def UnitRow.typeNameStable (db : Db) (r : UnitRow) : Bool :=
+  match db.catByName r.qtype with
+  | some ci => ci.qtype == r.qtype
+  | none => true
+
+/-- a row without legacy spellings asks for nothing; for a row with legacy spellings every one of
+them is fine, the row is the only one with its symbol, its quantity type is not the `<unknown>`
+placeholder's and is not re-routed by a category of the same name -/
+def UnitRow.derivedOk (db : Db) (r : UnitRow) : Bool :=
+  (deriveFor db.legacy r.sym).isEmpty
+  || ((deriveFor db.legacy r.sym).all (derivedPairOk db.legacy)
+      && r.qtype != unknownQType && r.onlyOne db && r.typeNameStable db)
 
 /-! ### `GetDefaultCategory` -/
 
